@@ -89,9 +89,17 @@ Section Graph.
   Definition common_of (pa pb : list (list node)) : list node :=
     nodup_keep (filter (fun c => nmem c (concat pb)) (concat pa)).
 
+  (* sorted(common): synsets order by rowid *)
+  Fixpoint insert_node (x : node) (l : list node) : list node :=
+    match l with
+    | [] => [x]
+    | y :: l' => if Z.leb x y then x :: l else y :: insert_node x l'
+    end.
+  Definition sort_nodes (l : list node) : list node := fold_right insert_node [] l.
+
   Definition common_hypernyms fuel a b sr : option (list node) :=
     match hypernym_paths_gen fuel a sr true, hypernym_paths_gen fuel b sr true with
-    | Some pa, Some pb => Some (common_of pa pb)
+    | Some pa, Some pb => Some (sort_nodes (common_of pa pb))
     | _, _ => None
     end.
 
@@ -124,9 +132,7 @@ Section Graph.
                             end) paths).
 
   (* taxonomy._shortest_hyp_paths: association list (c, depth) -> path, one entry
-     per common hypernym (dictionary order = iteration order of a Python set, which
-     the model does not fix: consumers below are order-independent or take an
-     explicit choice) *)
+     per common hypernym, in the order of sorted(common) (ascending rowid) *)
   Definition shortest_hyp_paths fuel a b sr : option (list (node * nat * list node)) :=
     if Z.eqb a b then Some [(a, 0, [])]
     else
@@ -138,12 +144,11 @@ Section Graph.
                                 [(c, Nat.max (depth_in c pa) (depth_in c pb),
                                   sa ++ tl (rev sb))]
                             | _, _ => []
-                            end) (common_of pa pb))
+                            end) (sort_nodes (common_of pa pb)))
       | _, _ => None
       end.
 
-  (* taxonomy.shortest_path: None = out of fuel, Some None = wn.Error, length only
-     (which of several equally short paths is returned depends on set order) *)
+  (* taxonomy.shortest_path, length only: None = out of fuel, Some None = wn.Error *)
   Definition shortest_path_len fuel a b sr : option (option nat) :=
     match shortest_hyp_paths fuel a b sr with
     | None => None
@@ -151,7 +156,7 @@ Section Graph.
     | Some pm => Some (Some (list_min (map (fun e => length (snd e)) pm) - 1))
     end.
 
-  (* one concrete shortest path: the first minimal entry in the model's order *)
+  (* taxonomy.shortest_path: min(pathmap, key=len) is the first minimal entry in dictionary order *)
   Definition shortest_path fuel a b sr : option (option (list node)) :=
     match shortest_hyp_paths fuel a b sr with
     | None => None
@@ -216,7 +221,7 @@ Definition sx_of_paths (o : option (list (list node))) : sx :=
 
 (* case   = L [graph; hypo-graph; L all nodes; A simulate_root; L synsets of the pos class (query order)]
    result = L [ L per node [paths; min; max];
-                L per ordered pair [common; lowest; shortest length (-1 = wn.Error)];
+                L per ordered pair [common; lowest; shortest length (-1 = wn.Error); shortest path];
                 taxonomy_depth; roots; leaves ]      (-2 anywhere = out of fuel) *)
 Definition run_taxonomy (c : sx) : sx :=
   let g := adj_of_sx (sx_nth 0 c) in
@@ -233,7 +238,9 @@ Definition run_taxonomy (c : sx) : sx :=
             L [ match common_hypernyms hyp fuel a b sr with Some l => sx_of_nodes l | None => A (-2) end;
                 match lowest_common_hypernyms hyp fuel a b sr with Some l => sx_of_nodes l | None => A (-2) end;
                 match shortest_path_len hyp fuel a b sr with
-                | Some (Some n) => A (Z.of_nat n) | Some None => A (-1) | None => A (-2) end ]) V) V);
+                | Some (Some n) => A (Z.of_nat n) | Some None => A (-1) | None => A (-2) end;
+                match shortest_path hyp fuel a b sr with
+                | Some (Some p) => sx_of_nodes p | Some None => A (-1) | None => A (-2) end ]) V) V);
       sx_of_onat (taxonomy_depth hyp fuel VP);
       sx_of_nodes (roots hyp VP);
       sx_of_nodes (leaves (hyp_of gh) VP) ].
@@ -244,16 +251,17 @@ Fixpoint forall2b {T} (f : T -> T -> bool) (a b : list T) : bool :=
   | x :: a', y :: b' => f x y && forall2b f a' b'
   | _, _ => false
   end.
-(* paths, common and lowest common hypernyms, roots and leaves are compared as
-   sets (the property does not speak about their order); depths, path lengths
-   and the taxonomy depth exactly *)
+(* hypernym paths, roots and leaves are compared as sets (the property does not
+   speak about their order); common and lowest common hypernyms (sorted by the
+   code), the shortest path, depths and the taxonomy depth exactly *)
 Definition agree_node (m i : sx) : bool :=
   sx_seteq (sx_list (sx_nth 0 m)) (sx_list (sx_nth 0 i))
   && sx_eqb (sx_nth 1 m) (sx_nth 1 i) && sx_eqb (sx_nth 2 m) (sx_nth 2 i).
 Definition agree_pair (m i : sx) : bool :=
-  sx_seteq (sx_list (sx_nth 0 m)) (sx_list (sx_nth 0 i))
-  && sx_seteq (sx_list (sx_nth 1 m)) (sx_list (sx_nth 1 i))
-  && sx_eqb (sx_nth 2 m) (sx_nth 2 i).
+  sx_eqb (sx_nth 0 m) (sx_nth 0 i)
+  && sx_eqb (sx_nth 1 m) (sx_nth 1 i)
+  && sx_eqb (sx_nth 2 m) (sx_nth 2 i)
+  && sx_eqb (sx_nth 3 m) (sx_nth 3 i).
 Definition agree_taxonomy (m i : sx) : bool :=
   forall2b agree_node (sx_list (sx_nth 0 m)) (sx_list (sx_nth 0 i))
   && forall2b agree_pair (sx_list (sx_nth 1 m)) (sx_list (sx_nth 1 i))
